@@ -836,16 +836,20 @@ func (e *Executor) Execute(ctx context.Context, m File) (err error) {
 		}
 	}
 	// Save once to mark as started in the database.
+	simPoint("exec:before-init-write")
 	if err = e.writeRevision(ctx, r); err != nil {
 		e.log.Log(LogError{Error: err})
 		return err
 	}
+	simPoint("exec:after-init-write")
 	// Make sure to store the Revision information, if it did not fail before.
 	defer func(ctx context.Context, e *Executor, r *Revision) {
 		if !errors.As(err, new(*WriteRevisionError)) {
+			simPoint("exec:before-final-write")
 			if err2 := e.writeRevision(ctx, r); err2 != nil {
 				err = errors.Join(err, err2)
 			}
+			simPoint("exec:after-final-write")
 		}
 	}(ctx, e, r)
 	if r.Applied > 0 {
@@ -868,6 +872,7 @@ func (e *Executor) Execute(ctx context.Context, m File) (err error) {
 	}
 	for _, stmt := range stmts[r.Applied:] {
 		e.log.Log(LogStmt{SQL: stmt.Text, Stmt: stmt})
+		simPoint("exec:before-stmt")
 		if _, err = e.drv.ExecContext(ctx, stmt.Text); err != nil {
 			e.log.Log(LogError{SQL: stmt.Text, Stmt: stmt, Error: err})
 			r.done()
@@ -875,6 +880,7 @@ func (e *Executor) Execute(ctx context.Context, m File) (err error) {
 			r.Error = err.Error()
 			return &StmtExecError{File: m, Stmt: stmt, Version: r.Version, Err: err}
 		}
+		simPoint("exec:after-stmt")
 		r.PartialHashes = append(r.PartialHashes, "h1:"+sums[r.Applied])
 		r.Applied++
 		// In case retry attempts succeeded,
@@ -887,6 +893,7 @@ func (e *Executor) Execute(ctx context.Context, m File) (err error) {
 			e.log.Log(LogError{Error: err})
 			return err
 		}
+		simPoint("exec:after-stmt-write")
 	}
 	// In case the file was applied successfully, clean out the partial revisions.
 	r.PartialHashes = nil
@@ -1072,9 +1079,11 @@ func (e *Executor) Replay(ctx context.Context, r StateReader, opts ...ReplayOpti
 		return nil, fmt.Errorf("sql/migrate: taking database snapshot: %w", err)
 	}
 	defer func() {
+		simPoint("replay:before-restore")
 		if err2 := restore(ctx); err2 != nil {
 			err = errors.Join(err, err2)
 		}
+		simPoint("replay:after-restore")
 	}()
 	// Replay the migration directory on the database.
 	switch {
